@@ -81,6 +81,7 @@ type Guard struct {
 	Name   string // optional label
 	In     string // optional: restrict to call sites inside this function
 	Line   int
+	Ord    int // optional: only the Ord-th call of the callee within the enclosing function
 	Hits   int // number of sites this guard produced an obligation for (0 = the guard is vacuous: reported)
 }
 
@@ -503,6 +504,12 @@ func parseGuard(rest string) (*Guard, error) {
 		return nil, fmt.Errorf("guard call|store <target>")
 	}
 	g := &Guard{Kind: head[0], Target: head[1]}
+	if j := strings.Index(g.Target, "#"); j >= 0 {
+		if n, err := strconv.Atoi(g.Target[j+1:]); err == nil {
+			g.Ord = n // only the n-th call of that callee inside the function
+		}
+		g.Target = g.Target[:j]
+	}
 	if len(head) > 3 && head[2] == "in" {
 		g.In = head[3] // only sites inside this function (key suffix match)
 	} else if len(head) > 2 {
